@@ -435,6 +435,17 @@ func intrinsicTable0() map[string]func(ex *Exec, f *Frame, call *ssa.Call, args 
 			}
 			return Or(alts...), reach
 		},
+		// verifRandIntDrawn(x): x is exactly a value returned by a successful crypto/rand.Int
+		// call made during this execution
+		"verifRandIntDrawn": func(ex *Exec, f *Frame, call *ssa.Call, args []Value, reach *Term) (Value, *Term) {
+			p := ex.ptr(args[0])
+			v := ex.bigVal(p.Ref)
+			var alts []*Term
+			for _, n := range ex.randInts {
+				alts = append(alts, Eq(v, n))
+			}
+			return And(Ne(p.Ref, Int(0)), Or(alts...)), reach
+		},
 		"verifPrfPlusSpec": func(ex *Exec, f *Frame, call *ssa.Call, args []Value, reach *Term) (Value, *Term) {
 			if ex.hmacNewHook == nil {
 				ex.unsupported("verifPrfPlusSpec needs //verif:bytes")
